@@ -170,25 +170,6 @@ Proof.
 Qed.
 
 (* ---- Part 2: the writes of a finisher ---- *)
-Lemma wnorm_changes l j : first_non_or l 0 = Some (S j) -> wnorm l <> l.
-Proof.
-  intros E Q. destruct (first_non_or_lt _ _ _ E) as (L & N). rewrite Nat.sub_0_r in N. cbn in L.
-  unfold wnorm in Q. rewrite E in Q. destruct l as [|x r]; [cbn in L; lia|].
-  cbn [upd_nth] in Q. inversion Q as [Q1]. cbn in E. destruct (is_or x) eqn:Ex; [|discriminate].
-  cbn [nth] in N. rewrite Q1 in N. congruence.
-Qed.
-
-Lemma h_swap_nonquiet h x u h' w : h_swap x h = (u, h', w) -> w <> [] -> wnorm (rd h x) <> rd h x.
-Proof.
-  intros E Nw. destruct x as [|l n c]; cbn [h_swap] in E.
-  { apply ret_inv in E. destruct E as (_ & _ & ->). contradiction. }
-  apply bind_inv in E. destruct E as (xs & h1 & w1 & w2 & E1 & E2 & ->).
-  apply rdc_inv in E1. destruct E1 as (-> & -> & ->).
-  destruct (first_non_or (rd h (SArr l n c)) 0) as [[|j]|] eqn:Ef;
-    try (apply ret_inv in E2; destruct E2 as (_ & _ & ->); contradiction).
-  eapply wnorm_changes; eauto.
-Qed.
-
 Section FinWrites.
 Variable grow : field -> nat -> nat -> nat.
 Variable md : field -> bool.
@@ -220,14 +201,10 @@ Proof. unfold exec_scopes. eapply conf_bind; [apply conf_rdc | intros xs _]. app
 Lemma wok_none h0 s0 w : wok none h0 s0 w -> forall l i, In (l, i) w -> length h0 <= l.
 Proof. intros H l i Hin. destruct (H _ _ Hin) as [L | (f & n & c & Q & _)]; [exact L | discriminate Q]. Qed.
 
-(* every write of a finisher on statement s: above h (private), a spare cell of s's FROM joins
-   array, or a cell of s's WHERE / HAVING array that Where.Build has to reorder *)
+(* every write of a finisher on statement s: above h (private), or a spare cell of s's FROM joins array *)
 Definition fin_wok (h : heap) (s : mstmt) (w : wset) : Prop :=
   forall l i, In (l, i) w ->
-    length h <= l
-    \/ (exists n c, sl s FFromj = SArr l n c /\ n <= i < c)
-    \/ (exists f n c, (f = FWhere \/ f = FHaving) /\ sl s f = SArr l n c /\ i < n
-                      /\ wnorm (rd h (SArr l n c)) <> rd h (SArr l n c)).
+    length h <= l \/ (exists n c, sl s FFromj = SArr l n c /\ n <= i < c).
 
 Lemma finish_writes h s f r h' w :
   swf h s -> finish grow md s f h = (r, h', w) -> fin_wok h s w.
@@ -236,7 +213,6 @@ Proof.
   binv E as EA E1. binv E1 as EB E2. binv E2 as EC E3. binv E3 as ED E4. binv E4 as EE E5.
   binv E5 as EF E6. apply ret_inv in E6. destruct E6 as (_ & -> & ->).
   inversion EF; subst a4 h5 w4; clear EF.
-  (* phase A: prologue and scopes write fresh cells only *)
   assert (OA := prologue_spec grow md Hmd _ _ _ _ _ _ W EA).
   assert (OB := exec_scopes_spec grow md Hmd _ _ _ _ _ (os_wf _ _ _ _ _ _ OA) EB).
   assert (OAB := ospec_trans _ _ _ _ _ _ _ _ _ _ (p_allscopes_peq) OA OB).
@@ -244,72 +220,28 @@ Proof.
   assert (CA := conf_prologue h s s f h a h0 w0 (le_n _) EA).
   assert (CB := conf_exec_scopes h s a h0 a0 h1 w LA EB).
   assert (FA := wok_none _ _ _ (proj1 CA)). assert (FB := wok_none _ _ _ (proj1 CB)).
-  assert (XAB := os_ext _ _ _ _ _ _ OAB). assert (W2 := os_wf _ _ _ _ _ _ OAB).
-  assert (FAB : forall l i, In (l, i) (w0 ++ w) -> length h <= l).
-  { intros l i Hin. apply in_app_iff in Hin. destruct Hin; eauto. }
-  (* how the slices of s2 relate to those of s *)
-  assert (Ev := os_ev _ _ _ _ _ _ OAB).
-  assert (Old : forall g l n c, excl g = false -> sl a0 g = SArr l n c -> l < length h -> sl s g = SArr l n c).
-  { intros g l n c Ex Eg Ll. destruct (Ev g) as [Q | [Q | [F | (Q & _)]]]; try congruence.
-    rewrite Eg in F. cbn in F. lia. }
-  (* phase B *)
+  assert (W2 := os_wf _ _ _ _ _ _ OAB). assert (Ev := os_ev _ _ _ _ _ _ OAB).
+  assert (L01 : length h0 <= length h1) by apply CB.
   assert (XB : hext h1 h2 w1 /\ (forall l i, In (l, i) w1 -> length h1 <= l \/ exists n c, sl a0 FFromj = SArr l n c /\ n <= i < c)
-               /\ sl a1 FWhere = sl a0 FWhere /\ sl a1 FHaving = sl a0 FHaving /\ sc a1 = sc a0).
+               /\ sl a1 FWhere = sl a0 FWhere /\ sl a1 FHaving = sl a0 FHaving).
   { destruct (is_query f).
     - binv EC as Ea Eb. rdinv Ea. binv Eb as Ec Ed. rinv Ed. cbn [app]. rewrite app_nil_r.
       assert (RB := h_append_each_spec grow _ _ _ _ _ _ _ (W2 FFromj) Ec).
       split; [apply (sr_ext _ _ _ _ _ _ _ RB)|]. split; [apply (sr_w _ _ _ _ _ _ _ RB)|]. auto.
     - rinv EC. split; [apply hext_refl|]. split; [intros l i []|]. auto. }
-  destruct XB as (XB & WB & Ew & Eh & Esc).
-  assert (L12 : length h1 <= length h2) by apply XB.
-  assert (L01 : length h0 <= length h1) by apply CB.
-  (* reading an old WHERE / HAVING array of s in h2 *)
-  assert (RdOld : forall g l n c, (g = FWhere \/ g = FHaving) -> sl s g = SArr l n c ->
-                    rd h2 (SArr l n c) = rd h (SArr l n c)).
-  { intros g l n c Hg Eg. assert (Wg : wf_slice h g (SArr l n c)) by (rewrite <- Eg; apply W).
-    transitivity (rd h1 (SArr l n c)).
-    - eapply rd_frame; [exact XB | eapply wf_slice_ext; eauto |].
-      intros i Hi Hin. destruct (WB _ _ Hin) as [Lf | (n' & c' & Ef & _)].
-      + apply wf_slice_lt in Wg. lia.
-      + assert (Wf2 := W2 FFromj). rewrite Ef in Wf2.
-        assert (Wg1 : wf_slice h1 g (SArr l n c)) by (eapply wf_slice_ext; eauto).
-        destruct (wf_tag _ _ _ _ _ _ _ _ Wg1 Wf2) as (Q & _). destruct Hg; subst; discriminate.
-    - eapply rd_fresh_frame; eauto. }
-  (* the swaps *)
-  assert (SwapW : forall g u hA hB wS, (g = FWhere \/ g = FHaving) -> wf_slice hA g (sl a0 g) ->
-             (forall l n c, sl s g = SArr l n c -> rd hA (SArr l n c) = rd h (SArr l n c)) ->
-             h_swap (sl a0 g) hA = (u, hB, wS) -> fin_wok h s wS).
-  { intros g u hA hB wS Hg Wsw RdA ES l i Hin.
-    destruct (h_swap_spec _ _ _ _ _ _ Wsw ES) as (_ & _ & Hw).
-    destruct (Hw _ _ Hin) as (n & c & Eg & Hi).
-    destruct (Nat.lt_ge_cases l (length h)) as [Ll | Ll]; [|left; exact Ll].
-    assert (Ex : excl g = false) by (destruct Hg; subst; reflexivity).
-    assert (Es := Old _ _ _ _ Ex Eg Ll).
-    right; right. exists g, n, c. repeat split; auto.
-    rewrite <- (RdA _ _ _ Es). rewrite <- Eg.
-    eapply h_swap_nonquiet; eauto. intro Q. rewrite Q in Hin. exact Hin. }
-  rewrite Ew in ED. rewrite Eh, Esc in EE.
+  destruct XB as (XB & WB & Ew & Eh).
+  rewrite Ew in ED. rewrite Eh in EE.
   assert (Ww2 : wf_slice h2 FWhere (sl a0 FWhere)) by (eapply wf_slice_ext; eauto).
   assert (Wh2 : wf_slice h2 FHaving (sl a0 FHaving)) by (eapply wf_slice_ext; eauto).
-  destruct (h_swap_spec _ _ _ _ _ _ Ww2 ED) as (X3 & _ & Hw3).
+  destruct (stagec grow _ _ _ _ _ _ _ _ _ _ Ww2 Wh2 ED EE) as (-> & -> & _).
   intros l i Hin. rewrite !in_app_iff in Hin.
-  destruct Hin as [Hin | [Hin | [Hin | [Hin | [Hin | [Hin | Hin]]]]]].
+  destruct Hin as [Hin | [Hin | [Hin | [[] | [[] | [[] | []]]]]]].
   - left. eauto.
-  - left. eauto.
+  - left. apply FB in Hin. lia.
   - destruct (WB _ _ Hin) as [Lf | (n & c & Ef & Hi)]; [left; lia|].
     destruct (Nat.lt_ge_cases l (length h)) as [Ll | Ll]; [|left; exact Ll].
-    right; left. exists n, c. split; [apply (Old FFromj); auto | exact Hi].
-  - apply (SwapW FWhere _ _ _ _ (or_introl eq_refl) Ww2 (fun l0 n c E0 => RdOld FWhere _ _ _ (or_introl eq_refl) E0) ED); auto.
-  - destruct (is_query f && k_grpp (sc a0)).
-    + refine (SwapW FHaving _ _ _ _ (or_intror eq_refl) (wf_slice_ext _ _ _ _ _ X3 Wh2) _ EE _ _ Hin).
-      intros l0 n c E0. rewrite <- (RdOld FHaving _ _ _ (or_intror eq_refl) E0).
-      assert (Wo : wf_slice h2 FHaving (SArr l0 n c)).
-      { eapply wf_slice_ext; [exact XB|]. eapply wf_slice_ext; [exact XAB|]. rewrite <- E0. apply W. }
-      eapply rd_frame; [exact X3 | exact Wo |].
-      intros j Hj Hin'. destruct (Hw3 _ _ Hin') as (n' & c' & Eq & _). rewrite Eq in Ww2.
-      destruct (wf_tag _ _ _ _ _ _ _ _ Wo Ww2) as (Q & _). discriminate Q.
-    + rinv EE. destruct Hin.
-  - destruct Hin.
-  - destruct Hin.
+    right. exists n, c. split; [|exact Hi].
+    destruct (Ev FFromj) as [Q | [Q | [F | (Q & _)]]]; try congruence; try discriminate.
+    rewrite Ef in F. cbn in F. lia.
 Qed.
 End FinWrites.
